@@ -3,13 +3,17 @@ import Driver.Val
 import TxdbusModel.Wire.Code
 import TxdbusModel.Wire.Spec
 import TxdbusModel.Wire.ToSpec
+import TxdbusModel.Wire.Cost
 /-!
 Line protocol shared by the drivers of C01 and C02 (wire codec).  One operation per line:
 
   marshal <sig> <start> <L|B> <fds> <values>     Code.marshal: `fds` and `values` are values in the syntax of
                                                  Driver/Val.lean (`N` = None or `L n …` for oobFDs)
         -> `ok <nbytes> <byteshex> <fds after>` | `err <ExceptionName>`
-  unmarshal <sig> <offset> <L|B> <datahex> <fds> Code.unmarshal
+  unmarshal <sig> <offset> <L|B> <datahex> <fds> Code.unmarshal at the fuel `Cost.codeFuel sig data offset` = |sig| + (|data| - offset) + 1,
+                                                 computed from the arguments: the fuel of `C01_roundtrip_fuel_free` /
+                                                 `C02_decode_fuel_free`, at which the model never answers RecursionError
+                                                 (`C02_unmarshal_fuel_canonical`; CPython's own recursion limit is not modelled)
         -> `ok <nbytes> <value (a list)>` | `err <ExceptionName>`
   specenc <sig> <start> <L|B> <values>           Spec.encodeAll on the spec value that the Python values denote, found by
                                                  `Code.toSpecTop` (sound w.r.t. `Code.Conf`: Proofs/Wire/ToSpecSound) after
@@ -26,8 +30,14 @@ Line protocol shared by the drivers of C01 and C02 (wire codec).  One operation 
 namespace Driver
 open Txdbus
 
-/-- Step budget of the per-type calls (Python's recursion limit plays this role). -/
+/-- Step budget of the per-type calls of `marshal` (Python's recursion limit plays this role).  The encoder has no bound
+computable from its arguments alone (the nesting of a variant's content is not in the signature; there is no cost model
+of `marshal`): `C02_encode_fuel_free` needs `|sig| + |bytes produced|`, `C02_encode_noVariant_fuel_free` the nesting depth
+of the signature (at most 65 for a valid one).  The generators nest at most 32 + 32 + a few variants deep. -/
 def wireFuel : Nat := 300
+
+/-- Step budget of `unmarshal`: the bound of the fuel-free theorems, a function of the lengths of signature and data. -/
+def unmarshalFuel (sig : List Char) (data : Bytes) (off : Nat) : Nat := Cost.codeFuel sig data off
 
 def parseEndian? : String → Option Bool
   | "L" => some true
@@ -115,7 +125,7 @@ def wireStep (line : String) : String :=
     | some sig, some off, some le, some data, some ([fdsv], []) =>
       match fdsOfVal? fdsv with
       | some fds =>
-        match Code.unmarshal wireFuel sig data off le fds with
+        match Code.unmarshal (unmarshalFuel sig data off) sig data off le fds with
         | .ok (n, vs) => "ok " ++ toString n ++ " " ++ printVal (.list vs)
         | .error e => "err " ++ pyErrName e
       | Option.none => "bad-input"
